@@ -35,14 +35,6 @@ Ltac c16_sqrt_unify :=
              assert (H : sqrt b = sqrt a) by (apply f_equal; ring); rewrite H; clear H)
       end
   end.
-(* replace every [sqrt e] by a fresh r with r * r = e (e is a sum of squares) *)
-Ltac c16_abs_sqrt :=
-  repeat match goal with
-  | |- context [sqrt ?e] =>
-      let r := fresh "r" in let Hr := fresh "Hr" in
-      assert (Hr : sqrt e * sqrt e = e) by (apply sqrt_sqrt; c16_pos);
-      generalize dependent (sqrt e); intro r; intros
-  end.
 (* replace every [/ x] (x <> 0 in the context) by a fresh xi with x * xi = 1 *)
 Ltac c16_abs_inv :=
   unfold Rdiv in *;
@@ -51,6 +43,21 @@ Ltac c16_abs_inv :=
       let xi := fresh "ri" in let Hi := fresh "Hi" in
       assert (Hi : x * / x = 1) by (apply Rinv_r; c16_nz);
       generalize dependent (/ x); intro xi; intros
+  end.
+(* innermost first: replace [sqrt e] by 1 when e = 1 follows from the context by nsatz
+   (keeps the sign information a fresh variable would lose), else by a fresh r with
+   r * r = e (e is a sum of squares) *)
+Ltac c16_abs_sqrt :=
+  repeat match goal with
+  | |- context [sqrt ?e] =>
+      lazymatch e with context [sqrt _] => fail | _ => idtac end;
+      first [ let H1 := fresh "Hone" in
+              assert (H1 : sqrt e = 1)
+                by (rewrite <- sqrt_1; apply f_equal; c16_abs_inv; timeout 30 c16_nsatz);
+              rewrite H1 in *; clear H1
+            | let r := fresh "r" in let Hr := fresh "Hr" in
+              assert (Hr : sqrt e * sqrt e = e) by (apply sqrt_sqrt; c16_pos);
+              generalize dependent (sqrt e); intro r; intros ]
   end.
 Ltac c16_alg := c16_unfold; c16_hyps; c16_abs_sqrt; c16_abs_inv; repeat split; c16_nsatz.
 
